@@ -153,6 +153,7 @@ fn run_sequence(fills: &[Fill], with_engine: bool, want_obs: bool) -> Result<Out
     let mut led = Ledger::default();
     let mut out = Outcome { env: vec![], kinds: vec![], obs: vec![], steps: 0, checks: 0 };
 
+    let mut links: Vec<fixtures::RecTx> = vec![];
     let mut engine = if with_engine {
         let instruments = IndexedInstruments::new([
             fixtures::spot(ExchangeId::BinanceSpot, "btc", "usdt"),
@@ -162,7 +163,9 @@ fn run_sequence(fills: &[Fill], with_engine: bool, want_obs: bool) -> Result<Out
         // algorithmic trading is enabled for half of the sequences (the scripted strategy then issues orders
         // on the very tick of some fills), and market events - priced and price-less - arrive between fills
         let enabled = fills.first().map(|f| f.id % 2 == 0).unwrap_or(false);
-        Some(fixtures::engine_with_rec_txs(&instruments, if enabled { TradingState::Enabled } else { TradingState::Disabled }).0)
+        let (engine, txs) = fixtures::engine_with_rec_txs(&instruments, if enabled { TradingState::Enabled } else { TradingState::Disabled });
+        links = txs;
+        Some(engine)
     } else {
         None
     };
@@ -201,9 +204,16 @@ fn run_sequence(fills: &[Fill], with_engine: bool, want_obs: bool) -> Result<Out
                 }
                 out.env.push(if before.is_some() { format!("market:{what}:with_open_position") } else { format!("market:{what}") });
             }
+            let mut link_broken = false;
             if engine.state.trading == TradingState::Enabled && f.id % 3 == 0 {
                 engine.strategy.push((vec![], vec![fixtures::req_open(0, (f.id % 2) as usize, &format!("algo{idx}"), Side::Buy, Decimal::ONE, Decimal::ONE)]));
                 out.env.push("strategy_issues_orders_on_the_tick_of_a_fill".into());
+                // sometimes the execution link is gone on that very tick: the order cannot be delivered (a fatal
+                // error in the audit) - what the fill itself did must still be reported
+                if f.id % 9 == 0 {
+                    links[0].set_mode(fixtures::TxMode::Closed);
+                    link_broken = true;
+                }
             }
             let ev: EngineEvent = EngineEvent::Account(AccountStreamEvent::Item(AccountEvent {
                 exchange: ExchangeIndex(0),
@@ -224,6 +234,12 @@ fn run_sequence(fills: &[Fill], with_engine: bool, want_obs: bool) -> Result<Out
             out.checks += 1;
             if exit.is_some() && engine.state.trading == TradingState::Enabled && f.id % 3 == 0 {
                 out.env.push("position_closed_on_a_tick_that_also_generated_orders".into());
+                if link_broken {
+                    out.env.push("position_closed_on_a_tick_whose_orders_could_not_be_delivered".into());
+                }
+            }
+            if link_broken {
+                links[0].set_mode(fixtures::TxMode::Healthy);
             }
             if exits.len() != exit.iter().count() {
                 return Err(("engine_audit_exit_record_mismatch", format!("fill #{idx}: unit path emitted {} exit, engine audit carries {}", exit.iter().count(), exits.len())));
@@ -574,7 +590,7 @@ fn main() {
     if args.tier != "miri" {
         for c in ["open", "increase", "reduce", "close", "flip", "flip->reduce", "reduce->increase", "flip->flip", "zero_fee", "nonzero_fee", "engine_path", "close->open",
             "market:l1_without_levels:with_open_position", "market:liquidation:with_open_position", "market:candle:with_open_position", "market:public_trade:with_open_position",
-            "strategy_issues_orders_on_the_tick_of_a_fill", "position_closed_on_a_tick_that_also_generated_orders"] {
+            "strategy_issues_orders_on_the_tick_of_a_fill", "position_closed_on_a_tick_that_also_generated_orders", "position_closed_on_a_tick_whose_orders_could_not_be_delivered"] {
             report.require(c);
         }
     }
